@@ -4,6 +4,16 @@
      -> OK <terminal 0|1> <finished jobs, oldest first, '.' if none>  |  REJECT <index of the first label not enabled>
    saccepts <v1|v0> <labels>                 serial queue (v1 = as repaired by 6dc9f85, v0 = before); same label spelling (lane and priority fields ignored)
      -> OK <exited 0|1> <finished, oldest first> <lost jobs: queued behind the sentinel when the worker left>  |  REJECT <index>
+   accepts_iv <lanes> <fifo|prio> <events>   /   saccepts_iv <v1|v0> <events>
+       The API of the queue shows WHEN addJob was entered and left and WHEN a job was reported started, not the instant
+       inside at which the queue really enqueued / dequeued it.  events (log order, comma separated):
+         P:<job>:<h|n>:<ordhex>:<o|lane>  addJob entered        Q:<job>  addJob returned
+         B:<lane>:<job>  queueJobStarted (the take of <job> by <lane> happened after that lane's previous f and before this)
+         f:<lane>  s:<lane>  c  d  x:<lane>   as above (instants)
+       The Add and Take steps are internal: the handler searches for positions inside their intervals such that the
+       resulting label sequence is a run of the model (the model's step function is the only judge; takes are placed as
+       early as the model allows - a take is never disabled by happening earlier -, adds are searched exhaustively).
+     -> OK <terminal|exited> <finished> [<lost>] <linearisation found>   |   REJECT <index of the furthest event reached>
    status <raw wait status>                  -> Succeeded | Failed | Cancelled
    launch <cancelled> <closed> <noargs> <none|raw> <waiterr>   -> <spawned 0|1> <status>
    fate e:<code> | s:<sig>:<core 0|1>        -> <raw> <status the property asks for>
@@ -33,6 +43,85 @@ let slabel_of_string s =
   | ["x"; _] -> SExit
   | _ -> failwith ("label " ^ s)
 let nlist l = if l = [] then "." else String.concat "," (List.map dec_of_n l)
+
+(* ---- acceptance with internal Add / Take steps (see the header) ---- *)
+type iv_item =
+  | IvAddBegin of string * string       (* job, label text *)
+  | IvAddEnd of string
+  | IvStarted of string * string        (* lane, label text of the take *)
+  | IvFinish of string * string         (* lane, label text *)
+  | IvFixed of string
+let iv_parse ev =
+  match String.split_on_char ':' ev with
+  | ["P"; j; p; o; src] -> IvAddBegin (j, String.concat ":" ["a"; j; p; o; src])
+  | ["Q"; j] -> IvAddEnd j
+  | ["B"; l; j] -> IvStarted (l, String.concat ":" ["t"; l; j])
+  | ["f"; l] -> IvFinish (l, ev)
+  | _ -> IvFixed ev
+(* apply : 'st -> string -> 'st option.  Returns Ok (state, labels in order) or Error furthest_index *)
+let iv_search (apply : 'st -> string -> 'st option) (s0 : 'st) (events : string list) =
+  let items = Array.of_list (List.map iv_parse events) in
+  let n = Array.length items in
+  (* the takes of every lane, in order *)
+  let takes : (string, string list) Hashtbl.t = Hashtbl.create 8 in
+  Array.iter (function IvStarted (l, lab) ->
+      Hashtbl.replace takes l ((try Hashtbl.find takes l with Not_found -> []) @ [lab]) | _ -> ()) items;
+  let seen = Hashtbl.create 1024 in
+  let furthest = ref 0 in
+  let budget = ref 400000 in
+  (* avail: (lane, label) takes that may fire now; rest: lane -> takes not yet available *)
+  let rec go i s pend avail rest trace =
+    (* takes as early as possible *)
+    let rec eager s avail acc trace = match avail with
+      | [] -> (s, List.rev acc, trace, false)
+      | (l, lab) :: tl ->
+        (match apply s lab with
+         | Some s' -> let (s2, av2, tr2, _) = eager s' (List.rev_append acc tl) [] (lab :: trace) in (s2, av2, tr2, true)
+         | None -> eager s tl ((l, lab) :: acc) trace) in
+    let (s, avail, trace, _) = eager s avail [] trace in
+    if i > !furthest then furthest := i;
+    decr budget;
+    if !budget < 0 then None else
+    let key = (i, Marshal.to_string (s, List.map fst pend) []) in
+    if Hashtbl.mem seen key then None else begin
+      Hashtbl.add seen key ();
+      if i = n then (if pend = [] && avail = [] then Some (s, List.rev trace) else None)
+      else
+        let advance () =
+          match items.(i) with
+          | IvAddBegin (j, lab) -> go (i + 1) s (pend @ [(j, lab)]) avail rest trace
+          | IvAddEnd j -> if List.mem_assoc j pend then None else go (i + 1) s pend avail rest trace
+          | IvStarted (l, _) -> if List.mem_assoc l avail then None else go (i + 1) s pend avail rest trace
+          | IvFinish (l, lab) ->
+            (match apply s lab with
+             | None -> None
+             | Some s' ->
+               (match (try List.assoc l rest with Not_found -> []) with
+                | [] -> go (i + 1) s' pend avail rest (lab :: trace)
+                | t :: tl -> go (i + 1) s' pend (avail @ [(l, t)]) ((l, tl) :: List.remove_assoc l rest) (lab :: trace)))
+          | IvFixed lab ->
+            (match apply s lab with None -> None | Some s' -> go (i + 1) s' pend avail rest (lab :: trace)) in
+        match advance () with
+        | Some r -> Some r
+        | None ->
+          (* fire one of the pending adds here *)
+          let rec try_adds = function
+            | [] -> None
+            | (j, lab) :: tl ->
+              (match apply s lab with
+               | Some s' ->
+                 (match go i s' (List.remove_assoc j pend) avail rest (lab :: trace) with
+                  | Some r -> Some r
+                  | None -> try_adds tl)
+               | None -> try_adds tl) in
+          try_adds pend
+    end in
+  let avail0 = Hashtbl.fold (fun l ts acc -> match ts with t :: _ -> (l, t) :: acc | [] -> acc) takes [] in
+  let rest0 = Hashtbl.fold (fun l ts acc -> match ts with _ :: tl -> (l, tl) :: acc | [] -> acc) takes [] in
+  match go 0 s0 [] (List.sort compare avail0) rest0 [] with
+  | Some r -> Ok r
+  | None -> Error (!furthest, !budget < 0)
+let events_of_field s = if s = "." then [] else String.split_on_char ',' s
 let labels_of_field s = if s = "." then [] else List.map label_of_string (String.split_on_char ',' s)
 let env_of_field s =
   if s = "." then [] else
@@ -50,6 +139,20 @@ let () =
          (match first_reject s0 labels N0 with
           | Some i -> "REJECT " ^ dec_of_n i
           | None -> "ERR accepts/first_reject disagree"))
+    | _ -> "ERR args");
+  register "accepts_iv" (function [lanes; alg; evs] ->
+      let s0 = init (n_of_dec lanes) (if alg = "fifo" then Fifo else NamePrio) in
+      (match iv_search (fun s lab -> step s (label_of_string lab)) s0 (events_of_field evs) with
+       | Ok (s, lin) ->
+         "OK " ^ b2s (terminal s) ^ " " ^ nlist (List.rev s.st_finished) ^ " " ^ (if lin = [] then "." else String.concat "," lin)
+       | Error (i, out_of_budget) -> "REJECT " ^ string_of_int i ^ (if out_of_budget then " search-budget-exhausted" else ""))
+    | _ -> "ERR args");
+  register "saccepts_iv" (function [v; evs] ->
+      let rep = (v = "v1") in
+      (match iv_search (fun s lab -> sstep_gen rep s (slabel_of_string lab)) sinit (events_of_field evs) with
+       | Ok (s, lin) ->
+         "OK " ^ b2s s.ss_exited ^ " " ^ nlist (List.rev s.ss_finished) ^ " " ^ nlist (slost s) ^ " " ^ (if lin = [] then "." else String.concat "," lin)
+       | Error (i, out_of_budget) -> "REJECT " ^ string_of_int i ^ (if out_of_budget then " search-budget-exhausted" else ""))
     | _ -> "ERR args");
   register "saccepts" (function [v; ls] ->
       let rep = (v = "v1") in
